@@ -105,6 +105,8 @@ def run_check(pid, tier, seed, harness_specs, level_note, args):
     for spec in harness_specs:
         hz = spec['make'](prog, tier)
         if hasattr(hz, 'tv_phase'):
+            if os.environ.get('VERIF_TV_ALL'):
+                hz.tv_every = 1     # validate every completed path against the native build (development aid)
             hz.tv_phase = seed % hz.tv_every
         S = explore.explore(hz, workers=args.workers, time_limit=spec.get('time_limit', {}).get(tier, 600), seed=seed)
         total['paths'] += S.paths; total['steps'] += S.steps; total['queries'] += S.queries; total['solver_s'] += S.solver_s
@@ -129,7 +131,7 @@ def run_check(pid, tier, seed, harness_specs, level_note, args):
         if unsup and unsup > 0.2 * S.paths:
             broken.append('%s: %d of %d paths inconclusive (unsupported): %s' % (hz.name, unsup, S.paths, list(S.unsupported)[:3]))
         # ---- translator validation against the native build
-        tvs = S.tv[:spec.get('tv_max', 400)]
+        tvs = S.tv[:spec.get('tv_max', 400) if not os.environ.get('VERIF_TV_ALL') else 10**9]
         tv_bad_examples = []
         if tvs:
             outs = driver.run_many([t['script'] for t in tvs])
